@@ -4,6 +4,38 @@
 import PS.Model.Initialize
 namespace PS
 
+theorem map_snd_flatMap_tag {α : Type} (l : List α) (o : α → Owner) (f : α → List Fml) :
+    (l.flatMap (fun x => (f x).map (fun g => (o x, g)))).map (·.2) = l.flatMap f := by
+  induction l with
+  | nil => rfl
+  | cons x xs ih =>
+      simp only [List.flatMap_cons, List.map_append, ih, List.map_map]
+      congr 1
+      induction f x with
+      | nil => rfl
+      | cons a as ih2 => simpa using ih2
+
+/-- the owner-tagged list printed by the driver is `initFmls` with tags -/
+theorem initializeO_fmls (cfg : Config) (st : State) :
+    (initializeO cfg st).map (·.2) = initFmls cfg st := by
+  unfold initializeO initFmls
+  simp only [List.map_append, map_snd_flatMap_tag, List.map_map]
+  congr 1
+  · congr 1
+    · congr 1
+      · congr 1
+        · congr 1
+          · congr 1
+            · congr 1
+              induction st.tasks with
+              | nil => rfl
+              | cons t ts ih =>
+                  simp only [List.flatMap_cons, List.map_append, List.map_map, ih]
+                  congr 1
+                  simp [State.taskAsserts, Function.comp_def]
+    · simp [Function.comp_def]
+  · simp [Function.comp_def]
+
 theorem mem_initFmls_iff (cfg : Config) (st : State) (a : Fml) :
     a ∈ initFmls cfg st ↔
       (∃ t ∈ st.tasks, a ∈ st.taskAsserts t ∨ a = t.horizonFml) ∨
@@ -14,58 +46,29 @@ theorem mem_initFmls_iff (cfg : Config) (st : State) (a : Fml) :
       (∃ b ∈ st.buffers, a ∈ bufferFmls st b) ∨
       a ∈ st.problemAsserts ∨
       a ∈ objectiveFmls cfg st := by
-  simp only [initFmls, initializeO, List.map_append, List.mem_append, List.mem_map, List.mem_flatMap,
-    List.mem_filter, Prod.exists, Prod.mk.injEq]
+  simp only [initFmls, List.mem_append, List.mem_flatMap, List.mem_filter, List.mem_singleton,
+    Bool.not_eq_eq_eq_not, Bool.not_true]
   constructor
   · rintro (((((((h | h) | h) | h) | h) | h) | h) | h)
-    · obtain ⟨o, f, ⟨t, ht, h1⟩, rfl⟩ := h
-      left
-      refine ⟨t, ht, ?_⟩
-      rcases h1 with ⟨f', hf', _, rfl⟩ | ⟨f', hf', _, rfl⟩
-      · exact Or.inl hf'
-      · right; simpa using hf'
-    · obtain ⟨o, f, ⟨w, hw, f', hf', _, rfl⟩, rfl⟩ := h
-      right; left; exact ⟨w, hw, hf'⟩
-    · obtain ⟨o, f, ⟨c, ⟨hc, hop⟩, f', hf', _, rfl⟩, rfl⟩ := h
-      right; right; left
-      refine ⟨c, hc, ?_, hf'⟩
-      simpa using hop
-    · obtain ⟨o, f, ⟨i, hi, f', hf', _, rfl⟩, rfl⟩ := h
-      right; right; right; left; exact ⟨i, hi, hf'⟩
-    · obtain ⟨o, f, ⟨t, ht, f', hf', _, rfl⟩, rfl⟩ := h
-      right; right; right; right; left; exact ⟨t, ht, hf'⟩
-    · obtain ⟨o, f, ⟨b, hb, f', hf', _, rfl⟩, rfl⟩ := h
-      right; right; right; right; right; left; exact ⟨b, hb, hf'⟩
-    · obtain ⟨o, f, ⟨f', hf', _, rfl⟩, rfl⟩ := h
-      right; right; right; right; right; right; left; exact hf'
-    · obtain ⟨o, f, ⟨f', hf', _, rfl⟩, rfl⟩ := h
-      right; right; right; right; right; right; right; exact hf'
+    · exact Or.inl h
+    · exact Or.inr (Or.inl h)
+    · obtain ⟨c, ⟨hc, hop⟩, ha⟩ := h
+      exact Or.inr (Or.inr (Or.inl ⟨c, hc, hop, ha⟩))
+    · exact Or.inr (Or.inr (Or.inr (Or.inl h)))
+    · exact Or.inr (Or.inr (Or.inr (Or.inr (Or.inl h))))
+    · exact Or.inr (Or.inr (Or.inr (Or.inr (Or.inr (Or.inl h)))))
+    · exact Or.inr (Or.inr (Or.inr (Or.inr (Or.inr (Or.inr (Or.inl h))))))
+    · exact Or.inr (Or.inr (Or.inr (Or.inr (Or.inr (Or.inr (Or.inr h))))))
   · rintro (h | h | h | h | h | h | h | h)
-    · obtain ⟨t, ht, h1⟩ := h
-      left; left; left; left; left; left; left
-      refine ⟨Owner.task t.name, a, ⟨t, ht, ?_⟩, rfl⟩
-      rcases h1 with h1 | h1
-      · exact Or.inl ⟨a, h1, rfl, rfl⟩
-      · exact Or.inr ⟨a, by simp [h1], rfl, rfl⟩
-    · obtain ⟨w, hw, h1⟩ := h
-      left; left; left; left; left; left; right
-      exact ⟨Owner.worker w.name, a, ⟨w, hw, a, h1, rfl, rfl⟩, rfl⟩
-    · obtain ⟨c, hc, hop, h1⟩ := h
-      left; left; left; left; left; right
-      exact ⟨Owner.constr c.id, a, ⟨c, ⟨hc, by simpa using hop⟩, a, h1, rfl, rfl⟩, rfl⟩
-    · obtain ⟨i, hi, h1⟩ := h
-      left; left; left; left; right
-      exact ⟨Owner.indicator i.id, a, ⟨i, hi, a, h1, rfl, rfl⟩, rfl⟩
-    · obtain ⟨t, ht, h1⟩ := h
-      left; left; left; right
-      exact ⟨Owner.work t.name, a, ⟨t, ht, a, h1, rfl, rfl⟩, rfl⟩
-    · obtain ⟨b, hb, h1⟩ := h
-      left; left; right
-      exact ⟨Owner.buffer b.name, a, ⟨b, hb, a, h1, rfl, rfl⟩, rfl⟩
-    · left; right
-      exact ⟨Owner.problem, a, ⟨a, h, rfl, rfl⟩, rfl⟩
-    · right
-      exact ⟨Owner.objective, a, ⟨a, h, rfl, rfl⟩, rfl⟩
+    · exact Or.inl (Or.inl (Or.inl (Or.inl (Or.inl (Or.inl (Or.inl h))))))
+    · exact Or.inl (Or.inl (Or.inl (Or.inl (Or.inl (Or.inl (Or.inr h))))))
+    · obtain ⟨c, hc, hop, ha⟩ := h
+      exact Or.inl (Or.inl (Or.inl (Or.inl (Or.inl (Or.inr ⟨c, ⟨hc, hop⟩, ha⟩)))))
+    · exact Or.inl (Or.inl (Or.inl (Or.inl (Or.inr h))))
+    · exact Or.inl (Or.inl (Or.inl (Or.inr h)))
+    · exact Or.inl (Or.inl (Or.inr h))
+    · exact Or.inl (Or.inr h)
+    · exact Or.inr h
 
 theorem mem_init_task {cfg : Config} {st : State} {t : Task} {a : Fml}
     (ht : t ∈ st.tasks) (ha : a ∈ st.taskAsserts t) : a ∈ initFmls cfg st :=
